@@ -301,8 +301,8 @@ func runC07(c *Ctx) {
 			c.check(maskedOK, dec, "mask length", last.Pos(), "4 mask bytes are counted exactly when the mask bit is set", "the 4 mask bytes are not added on every path on which IsMasked() holds (and only there): masked frames (e.g. with an empty payload) are mis-sized and the next frame starts inside the masking key")
 			// decodeReset = true dominates the return
 			flag := false
-			for _, a := range storesTo(dec, decodeResetF) {
-				if isConstBool(a.Instr.(*ssa.Store).Val, true) && dominatesInstr(a.Instr, r) {
+			for _, a := range storesDeep(dec, decodeResetF) {
+				if isConstBool(a.Val, true) && dominatesInstr(a.Instr, r) {
 					flag = true
 				}
 			}
